@@ -1,12 +1,12 @@
 """C07 Assembly-level optimisations preserve behaviour — claimed for constant propagation (DESIGN 2/C07)."""
-from units import c07, c07idx, c07red
+from units import c07, c07idx, c07red, c07flag
 
 LEVEL = "proof"
 TRUSTED = ["Kani 0.68 / CBMC 6.11 (+ z3 4.8.12)", "syn-based extractor", "spec/vm_alu.rs (FuelVM ALU oracle transcribed from fuel-vm 0.66.4)",
            "environment shims listed under assumptions"]
-ASSUMPTIONS = ["claimed for constant_propagate (rule table), the MUL arm of const_indexing_aggregates_function and the classification statement of remove_redundant_ops; unverified: the rest of const_indexing_aggregates_function, dce, simplify_cfg, remove_sequential_jumps, remove_redundant_moves, the next-op guard of remove_redundant_ops (its classification statement IS under contract), MROO rule"]
+ASSUMPTIONS = ["claimed for constant_propagate (rule table), the MUL arm of const_indexing_aggregates_function and the classification statement of remove_redundant_ops; unverified: the rest of const_indexing_aggregates_function, dce, simplify_cfg, remove_sequential_jumps, remove_redundant_moves, (remove_redundant_ops is under contract: classification statement, and the whole function on 3/4-instruction blocks incl. its flag guard), MROO rule"]
 EXPLANATION = ""
 
 
 def build(tier):
-    return c07red.build(tier) + c07idx.build(tier) + c07idx.build_inv(tier) + c07.build(tier)
+    return c07red.build(tier) + c07flag.build(tier) + c07idx.build(tier) + c07idx.build_inv(tier) + c07.build(tier)
